@@ -145,6 +145,10 @@ func (w *srvWorld) Start(x *h.Exec) {
 	case "noread":
 		// a backend that does not read: it waits until told (gate) and returns what the reader then says
 		w.be.Plan = func(int) h.DataPlan { return h.DataPlan{Max: 0, KeepErr: true} }
+	case "statuses-case":
+		w.be.Plan = func(int) h.DataPlan {
+			return h.DataPlan{Max: -1, Status: []h.StatusCall{{Rcpt: "ok1@b.example", Err: nil}, {Rcpt: "ok1@B.Example", Err: h.RejErr("the other one"), AfterRead: true}}}
+		}
 	case "reject":
 		// reads the message, sets no status, reports through its return value
 		w.be.Plan = func(int) h.DataPlan { return h.DataPlan{Max: -1, Verdict: h.RejErr("message")} }
@@ -484,6 +488,11 @@ func c20Scenarios(tier string) []SrvScenario {
 	lmDup := "LHLO c.example\r\nMAIL FROM:<ok@a.example>\r\nRCPT TO:<ok1@b.example>\r\nRCPT TO:<ok1@b.example>\r\n"
 	for _, tail := range [][]string{{"BDAT 4 LAST\r\nmsg\n", "QUIT\r\n"}, {"DATA\r\n", "msg\r\n.\r\n", "QUIT\r\n"}, {"BDAT 2\r\nms", "BDAT 2 LAST\r\ng\n", "QUIT\r\n"}} {
 		out = append(out, SrvScenario{Name: "F2-lmtp-duplicate-rcpt-return-value-" + strings.Fields(tail[0])[0] + fmt.Sprint(len(tail)), LMTP: true, Accepts: []string{"conn"}, Clients: [][]string{append([]string{lmDup}, tail...)}, Admin: []string{"close"}, Gates: []string{"return"}, Plan: "reject", Chunked: tail[0][0] == 'B'})
+	}
+	// two recipients that differ in the case of the domain only, per-recipient statuses
+	lmCase := "LHLO c.example\r\nMAIL FROM:<ok@a.example>\r\nRCPT TO:<ok1@b.example>\r\nRCPT TO:<ok1@B.Example>\r\n"
+	for _, tail := range [][]string{{"BDAT 4 LAST\r\nmsg\n", "QUIT\r\n"}, {"DATA\r\n", "msg\r\n.\r\n", "QUIT\r\n"}} {
+		out = append(out, SrvScenario{Name: "F2-lmtp-recipients-differ-in-domain-case-" + strings.Fields(tail[0])[0], LMTP: true, Accepts: []string{"conn"}, Clients: [][]string{append([]string{lmCase}, tail...)}, Admin: []string{"close"}, Gates: []string{"return"}, Plan: "statuses-case", Chunked: tail[0][0] == 'B'})
 	}
 	// the backend panics when its reader ends - also when it ends because the transfer was aborted
 	for _, next := range [][]string{{"RSET\r\n"}, {"QUIT\r\n"}, {"<EOF>"}, {"BDAT 3 LAST\r\nabc"}} {
